@@ -8,6 +8,9 @@ if ! git apply --3way "$patch" 2>/tmp/apply.err; then
   if ! git apply --recount -C1 "$patch" 2>>/tmp/apply.err; then echo "APPLY-FAILED"; cat /tmp/apply.err; git checkout -q -- .; exit 3; fi
 fi
 git reset -q   # unstage what --3way staged
-cd /verif && ./check "$prop" --tier "$tier" 2>&1 | grep -v WARNING | grep -E "VIOLATION|KNOWN-FINDING|MACHINERY|rejection" | head -12
+cd /verif && ./check "$prop" --tier "$tier" > /tmp/try_mutant.out 2>&1
 echo "exit=$?"
+grep -E "VIOLATION|MACHINERY" /tmp/try_mutant.out | head -6
+grep -E "  rejection" /tmp/try_mutant.out | head -4 | cut -c1-400
+echo "known=$(grep -c KNOWN-FINDING /tmp/try_mutant.out)"
 cd /repo && git checkout -q -- . && git clean -fdq src && git status --short | head -3
